@@ -65,6 +65,15 @@ func (e *Engine) verifyFunction(fc *FuncContract) *FuncResult {
 			st.assume(not(eq(vf.params[0].Tm, "0")))
 		}
 	}
+	if !fc.Flags["lock-held-on-entry"] {
+		// the calling goroutine holds none of the mutexes this function acquires (callers are checked against this)
+		st.declare(st.initialHeapName("L:w", 0), "(Array Int Bool)")
+		st.declare(st.initialHeapName("L:r", 0), "(Array Int Int)")
+		st.eng.noteHeapSort("L:w", "(Array Int Bool)")
+		st.eng.noteHeapSort("L:r", "(Array Int Int)")
+		st.assume(eq(sym(st.initialHeapName("L:w", 0)), "((as const (Array Int Bool)) false)"))
+		st.assume(eq(sym(st.initialHeapName("L:r", 0)), "((as const (Array Int Int)) 0)"))
+	}
 	for _, c := range fc.Requires {
 		st.assume(vf.evalClause(st, c, vf.env, nil))
 	}
